@@ -6,10 +6,12 @@ intro = {
  'r3': "**Third round (80 changes; the seeding agents were pointed at the anchored files that no earlier seed had touched).**",
  'r4': "**Fourth round (56 changes for the 14 properties that still had many untouched anchored files).**",
  'r6': "**Sixth round (64 changes for 16 properties; no file focus, emphasis on overlooked mechanisms: interactions between calls, caller-owned data, argument states, error paths, thresholds and ties, rarely taken size branches, less used build configurations).**",
+ 'r7': "**Seventh round (3 per property, all 20; two cooperating conditions or multi-step histories requested).**",
+ 'r8': "**Eighth round (3 each for the eight properties with the most recent misses).**",
  'r5': "**Fifth round (48 changes for 12 properties; focus on remaining files, and on interactions between calls, caller-owned data, unusual argument states, error paths).**",
 }
 out = []
-for rnd in ('r3', 'r4', 'r5', 'r6'):
+for rnd in ('r3', 'r4', 'r5', 'r6', 'r7', 'r8'):
     total = miss = 0
     rows = []
     for d in sorted(glob.glob(f'/verif/seeded/*-{rnd}-*/')):
